@@ -40,6 +40,7 @@ fn dispatch(op: &str, args: &[Sexp]) -> String {
         "serde.lef" => crate::props::c18::op_lef(args),
         "serde.lefspecial" => crate::props::c18::op_lefspecial(args),
         "lef.lex" => crate::props::lef::op_lex(args),
+        "lef.states" => crate::props::lef::op_states(args),
         "lef.enum" => crate::props::lef::op_enum(args),
         "lef.dbu" => crate::props::lef::op_dbu(args),
         "lef.wtokens" => crate::props::lef::op_wtokens(args),
